@@ -1,0 +1,51 @@
+//go:build verif
+
+package gateway
+
+// Verification hooks for the binary codecs (properties C11/C10 of the /verif
+// framework). This file only re-exports unexported methods; it adds no
+// behaviour and is compiled only with `-tags verif`.
+
+import "go.sia.tech/core/types"
+
+// VerifCodec exposes the request or response codec of an Object.
+type VerifCodec struct {
+	O        Object
+	Response bool
+}
+
+// EncodeTo implements types.EncoderTo.
+func (c VerifCodec) EncodeTo(e *types.Encoder) {
+	if c.Response {
+		c.O.encodeResponse(e)
+	} else {
+		c.O.encodeRequest(e)
+	}
+}
+
+// DecodeFrom implements types.DecoderFrom.
+func (c VerifCodec) DecodeFrom(d *types.Decoder) {
+	if c.Response {
+		c.O.decodeResponse(d)
+	} else {
+		c.O.decodeRequest(d)
+	}
+}
+
+// VerifHeaderCodec exposes (*Header).encodeTo/decodeFrom.
+type VerifHeaderCodec struct{ H *Header }
+
+// EncodeTo implements types.EncoderTo.
+func (c VerifHeaderCodec) EncodeTo(e *types.Encoder) { c.H.encodeTo(e) }
+
+// DecodeFrom implements types.DecoderFrom.
+func (c VerifHeaderCodec) DecodeFrom(d *types.Decoder) { c.H.decodeFrom(d) }
+
+// VerifOutlineCodec exposes (*V2BlockOutline).encodeTo/decodeFrom.
+type VerifOutlineCodec struct{ B *V2BlockOutline }
+
+// EncodeTo implements types.EncoderTo.
+func (c VerifOutlineCodec) EncodeTo(e *types.Encoder) { c.B.encodeTo(e) }
+
+// DecodeFrom implements types.DecoderFrom.
+func (c VerifOutlineCodec) DecodeFrom(d *types.Decoder) { c.B.decodeFrom(d) }
